@@ -1,7 +1,7 @@
 (* C06: preconditioned tasks.  Statements only; proofs in Feb/PrecondProofs.v *)
 From Coq Require Import List ZArith NArith Bool.
 Import ListNotations.
-From QV Require Import Cell.Spec Feb.Model Feb.Proofs Feb.PrecondProofs.
+From QV Require Import Cell.Spec Feb.Model Feb.Proofs Feb.PrecondProofs Feb.PrecondTrace.
 
 (* qthread_check_feb_preconds consumes only words that are full at that moment and parks on exactly one empty word *)
 Theorem precond_check_sound : forall febs k rem febs' rem',
@@ -18,26 +18,53 @@ Theorem precond_check_sound : forall febs k rem febs' rem',
 Proof. exact check_walk_sound. Qed.
 Print Assumptions precond_check_sound.
 
-(* precond_safe at spawn: enqueued by qthread_spawn only if every precondition word is full *)
+(* ================= trace level: the statement of the property =================
+   precond_safe: for every operation list l and every further step (t, g) (any interleaving of FEB calls and spawns by any
+   tasks): if the step hands precondition task k to a ready queue, then nothing remains to be checked, every one of k's
+   precondition words (p_all = the words given at its spawn, lemma spawn_sets_all) was seen full by a check of k
+   (history variable p_seen), and was full in the state after some step at which k had already been spawned. *)
+Theorem precond_safe : forall (l : list (N * gop)) (t : N) (g : gop) (k : N),
+  In (Enq k) (snd (step (exec l) t g)) ->
+  let l' := l ++ [(t, g)] in
+  let info := info_of (exec l') k in
+  (p_enq info > 0)%nat /\ p_rem info = [] /\
+  forall a, In a (p_all info) ->
+    In a (p_seen info) /\
+    exists j, (j <= length l')%nat /\ has_key k (st_pre (exec (firstn j l'))) = true /\
+              is_full (st_febs (exec (firstn j l'))) a = true.
+Proof. exact PrecondTrace.precond_safe. Qed.
+Print Assumptions precond_safe.
+
+(* every word in the history variable was full after some step since the spawn, in every reachable state *)
+Theorem precond_seen_was_full : forall (l : list (N * gop)) k info a,
+  lookup k (st_pre (exec l)) = Some info -> In a (p_seen info) ->
+  exists j, (j <= length l)%nat /\ has_key k (st_pre (exec (firstn j l))) = true /\
+            is_full (st_febs (exec (firstn j l))) a = true.
+Proof. exact seen_was_full. Qed.
+Print Assumptions precond_seen_was_full.
+
+(* step-local lemmas *)
 Theorem precond_safe_spawn : forall s t k pcs s' evs,
   step s t (GSpawn k pcs) = (s', evs) -> In (Enq k) evs ->
-  Forall (fun a => is_full (st_febs s) a = true) pcs /\ lookup k (st_pre s') = Some [].
+  Forall (fun a => is_full (st_febs s) a = true) pcs /\ p_rem (info_of s' k) = [].
 Proof. exact spawn_safe. Qed.
 Print Assumptions precond_safe_spawn.
 
-(* precond_safe / precond_live at a re-check: progress only over words full now; enqueue iff nothing remains;
-   otherwise parked on one word that is empty now; full bits and memory untouched *)
 Theorem precond_recheck_safe : forall s k s' ok,
   check_preconds s k = (s', ok) ->
-  exists rem seen rem', lookup k (st_pre s) = rem /\ (match rem with Some l => l | None => [] end) = seen ++ rem' /\
-    Forall (fun a => is_full (st_febs s) a = true) seen /\
-    lookup k (st_pre s') = Some rem' /\ ok = is_nil rem' /\
+  exists seen rem' info',
+    p_rem (info_of s k) = seen ++ rem' /\ Forall (fun a => is_full (st_febs s) a = true) seen /\
+    lookup k (st_pre s') = Some info' /\ p_all info' = p_all (info_of s k) /\ p_rem info' = rem' /\
+    p_seen info' = p_seen (info_of s k) ++ seen /\
+    p_enq info' = (if ok then S (p_enq (info_of s k)) else p_enq (info_of s k)) /\ ok = is_nil rem' /\
+    (forall k', k' <> k -> lookup k' (st_pre s') = lookup k' (st_pre s)) /\
     (forall b, is_full (st_febs s') b = is_full (st_febs s) b) /\ st_mem s' = st_mem s /\
     match rem' with
     | [] => st_febs s' = st_febs s
     | a :: _ => is_full (st_febs s) a = false /\
                 exists r, lookup a (st_febs s) = Some r /\
-                  lookup a (st_febs s') = Some (mkRec false (r_EFQ r) (r_FEQ r) (mkW k None DNull true :: r_FFQ r) (r_FFWQ r))
+                  lookup a (st_febs s') = Some (mkRec false (r_EFQ r) (r_FEQ r) (mkW k None DNull true :: r_FFQ r) (r_FFWQ r)) /\
+                  (forall b, b <> a -> lookup b (st_febs s') = lookup b (st_febs s))
     end.
 Proof. exact recheck_safe. Qed.
 Print Assumptions precond_recheck_safe.
